@@ -11,3 +11,8 @@ Proof. vm_compute. reflexivity. Qed.
 Lemma label_is_source :
   gen_native_label = map (fun n => (native_go_type n, (([60;110;97;116;105;118;101;32;102;110] ++ native_label n ++ [62])%list)%N)) all_natives.
 Proof. vm_compute. reflexivity. Qed.
+
+(** the bodies of the nine mathematical built-ins are the ones Model/Eval.v's [call_native] transcribes (Spec/NativeMechanism.v) *)
+From Borno Require Import NativeMechanism.
+Lemma native_bodies_match_C17 : pick math_natives gen_native_trace = pick math_natives native_trace_expected.
+Proof. vm_compute. reflexivity. Qed.
